@@ -141,6 +141,9 @@ def handle (j : Json) : Except String Json := do
   | "attrs" => attrsOp j
   | "syntax" => return syntaxOp
   | "residual" => return Json.arr (residualClasses.map fun (n, r) => Json.mkObj [("cls", Json.str n), ("stmts", ofStrs r)]).toArray
+  | "lex" =>
+    let toks ← field j "toks" >>= strs
+    return Json.arr (toks.map fun t => Json.mkObj [("spec", Json.bool (isFreeNumber t.toList)), ("model", Json.bool (cmdIsNum t.toList))]).toArray
   | "ls_set" => lsOp j
   | "wght" => wghtOp j
   | _ => err s!"C16: unknown op {op}"
